@@ -13,11 +13,12 @@ Definition bundle_complete (st : skey -> option value) (n : nat) : Prop := foral
 (** the label does not make a Store of the save fail (a panic inside the Store leaves storage as
     it is and is allowed) *)
 Definition save_ok_th (th : thread) (f : fault) : Prop :=
-  match tpc th with PSave _ => f = FPanic \/ (f = FNone /\ canc th = false) | _ => True end.
+  match tpc th with PSave _ | PQSv _ => f = FPanic \/ (f = FNone /\ canc th = false) | _ => True end.
 Definition save_ok (n : nat) (s : state) (l : label) : Prop :=
   forall th, thread_at s (l_tid l) th -> c_vk (cfg th) = n -> save_ok_th th (l_fault l).
 
-Definition no_roll (th : thread) : Prop := forall j, tpc th <> PRoll j.
+Definition is_roll (p : pc) : bool := match p with PRoll _ | PQRb => true | _ => false end.
+Definition no_roll (th : thread) : Prop := is_roll (tpc th) = false.
 
 Lemma tstep_bundle n t th s f b th' s' e :
   c_vk (cfg th) = n -> save_ok_th th f -> no_roll th -> bundle_complete (sto s) n ->
@@ -25,11 +26,10 @@ Lemma tstep_bundle n t th s f b th' s' e :
   bundle_complete (sto s') n /\ no_roll th'.
 Proof.
   intros Hvk Hok Hnr Hb H. unfold bundle_complete, no_roll, save_ok_th in *.
-  destruct th as [c p cu ca ? ? ? ? ? ? ?]; simpl in *. destruct p.
-  all: try (exfalso; eapply Hnr; reflexivity).
+  destruct th as [c p cu ca ? ? ? ? ? ? ?]; simpl in *. destruct p; simpl in Hnr; try discriminate Hnr.
   all: tstep_full H. all: inv_some H; simpl in *.
-  all: try (split; [exact Hb|intros j0; discriminate]).
-  all: try (split; [|intros j0; discriminate]; intros j0; unfold sput;
+  all: try (split; [exact Hb|reflexivity]).
+  all: try (split; [|reflexivity]; intros j0; unfold sput;
             match goal with |- (if ?x then _ else _) <> None => destruct x end; [discriminate|apply Hb]).
   all: try (exfalso; destruct Hok as [Hok|[Hok1 Hok2]]; subst; simpl in *; discriminate).
 Qed.
@@ -58,10 +58,10 @@ Qed.
 
 Lemma B_inv_init n cs st : bundle_complete st n -> B_inv n (init_state cs st).
 Proof.
-  intros Hb. split; auto. intros t th Ht _ j.
+  intros Hb. split; auto. intros t th Ht _.
   unfold thread_at, init_state in Ht; simpl in Ht. rewrite nth_error_map in Ht.
-  destruct (nth_error cs t) as [c|]; simpl in Ht; inversion Ht; subst. simpl.
-  unfold entry, after_pre. destruct (c_prog c); simpl; try discriminate; destruct (c_chk c); discriminate.
+  destruct (nth_error cs t) as [c|]; simpl in Ht; inversion Ht; subst. unfold no_roll; simpl.
+  unfold entry, after_pre. destruct (c_prog c); simpl; try reflexivity; destruct (c_chk c); reflexivity.
 Qed.
 
 (** a renewal that has had no fault of its own is on its way to success *)
@@ -139,7 +139,7 @@ Definition save_ok_b (n : nat) (s : state) (l : label) : bool :=
   | Some th =>
       negb (Nat.eqb (c_vk (cfg th)) n) ||
       match tpc th with
-      | PSave _ => fault_eqb (l_fault l) FPanic || (fault_eqb (l_fault l) FNone && negb (canc th))
+      | PSave _ | PQSv _ => fault_eqb (l_fault l) FPanic || (fault_eqb (l_fault l) FNone && negb (canc th))
       | _ => true
       end
   | None => true
@@ -161,7 +161,7 @@ Lemma save_ok_b_sound n s l : save_ok_b n s l = true -> save_ok n s l.
 Proof.
   unfold save_ok_b, save_ok, save_ok_th. intros H th Ht Hv. unfold thread_at in Ht. rewrite Ht in H.
   rewrite Hv, Nat.eqb_refl in H. simpl in H. destruct (tpc th); auto.
-  destruct (l_fault l); simpl in *; auto; try discriminate. right. split; auto. destruct (canc th); auto; discriminate.
+  all: destruct (l_fault l); simpl in *; auto; try discriminate; right; split; auto; destruct (canc th); auto; discriminate.
 Qed.
 
 Lemma run_sok_runs n s ls s' es : run_sok n s ls = Some (s', es) -> runs (save_ok n) s es s'.
